@@ -261,7 +261,7 @@ class Gen:
                     if r.random() < 0.5:
                         sw = self.fresh('w')
                         self.marks += 1
-                        out.append(('switch', sw, ('var', nm), [(ty[1], [('mark', ('var', sw))]), ('nil', [('markc', 8000 + self.marks)])]))
+                        out.append(('switch', sw, ('var', nm), [(ty[1], [('mark', ('var', sw))]), ('nil' if r.random() < 0.5 else '_', [('markc', 8000 + self.marks)])]))
                     else:
                         self.marks += 1
                         out.append(('mark', ('unwrap', ('var', nm))))
